@@ -70,7 +70,26 @@ Icmp6Mism(e) ==
                                       \cup (IF ~Tiled(e.opts.steps, 1, 8 + fx) THEN {"ndp.tiling"} ELSE {}))
                               ELSE {})))
 
+\* a typed option slice decoded from a slice that IS the option: accepted iff the two byte header is there, names the type (the
+\* unknown form takes any type), the length is not zero, equals the slice length, and is the fixed one for MTU (1) / prefix information (4);
+\* every violated condition admits the error kinds that can describe it
+NdDirectAdm(ty, b) ==
+  LET n == Len(b) IN
+  IF n < 2 THEN {"UnexpectedEndOfSlice", "UnexpectedSize"}
+  ELSE (IF ty \notin {-1} /\ b[1] # (IF ty = -3 THEN 3 ELSE ty) THEN {"UnexpectedHeader"} ELSE {})
+       \cup (IF b[2] = 0 THEN {"ZeroLength", "UnexpectedSize", "UnexpectedHeader"} ELSE {})
+       \cup (IF n # 8 * b[2] THEN {"UnexpectedSize", "UnexpectedEndOfSlice", "UnexpectedHeader"} ELSE {})
+       \cup (IF ty = 5 /\ b[2] # 1 THEN {"UnexpectedSize", "UnexpectedHeader"} ELSE {})
+       \cup (IF ty \in {3, -3} /\ (b[2] # 4 \/ n # 32) THEN {"UnexpectedSize", "UnexpectedHeader"} ELSE {})
+       \cup (IF ty = 4 /\ n < 8 THEN {"UnexpectedSize"} ELSE {})
+NdDirectMism(e) ==
+  UNION {LET d == e.direct[i]  adm == NdDirectAdm(d[1], e.bytes) IN
+         IF adm = {} THEN (IF d[2] # "ok" THEN {"ndp.direct.rejected:" \o d[2]} ELSE {})
+         ELSE (IF d[2] = "ok" THEN {"ndp.direct.accepted"} ELSE IF d[2] \notin adm THEN {"ndp.direct.error_kind:" \o d[2]} ELSE {})
+         : i \in 1..Len(e.direct)}
+
 NdpMism(e) ==
+  NdDirectMism(e) \cup
   (LET b == e.bytes IN
    (IF e.oh # (IF Len(b) < 2 THEN <<0, -1, -1, -1, -1, -1>> ELSE <<1, b[1], b[2], 8 * b[2], Len(b) - 2, 1>>) THEN {"ndp.option_header"} ELSE {})
    \cup (IF Len(b) >= 4 /\ e.echo # <<b[1] * 256 + b[2], b[3] * 256 + b[4], 1>> THEN {"icmp.echo_header"} ELSE {}))
